@@ -35,7 +35,7 @@ func successPaths(fn *ssa.Function, valueIdx int) []an.Path {
 	ps, _ := an.Paths(fn, 4096)
 	var out []an.Path
 	for _, p := range ps {
-		if p.Ret != nil && valueIdx < len(p.Ret.Results) && !an.IsNilConst(an.RetVal(p.Ret, valueIdx)) {
+		if p.Ret != nil && valueIdx < len(p.Ret.Results) && !an.MayBeNilConst(an.RetVal(p.Ret, valueIdx)) {
 			out = append(out, p)
 		}
 	}
@@ -476,21 +476,27 @@ func pathTakesEdge(p an.Path, f *ssa.Function, pick func(*ssa.If) (int, bool)) i
 
 // shaWindow: v is SHA1(buf[0:32+len])[4:20] where buf is the result of ige.Decrypt.
 func shaWindow(v ssa.Value, tr *an.Tracer, f *ssa.Function) string {
-	sl, ok := v.(*ssa.Slice)
-	if !ok {
-		return ""
-	}
-	lo, _ := an.ConstInt(sl.Low)
-	hi := int64(20)
-	if sl.High != nil {
-		hi, _ = an.ConstInt(sl.High)
-	}
-	call, ok := sl.X.(*ssa.Call)
-	if !ok || !strings.Contains(an.CalleeName(call.Common()), "Sha1") || len(call.Call.Args) != 1 {
-		return ""
-	}
-	if sl.Low == nil || lo != 4 || hi != 20 {
-		return sprintf("digest window is [%d:%d], MTProto 1.0 msg_key is [4:20]", lo, hi)
+	var call *ssa.Call
+	if mk, isCall := v.(*ssa.Call); isCall && an.CalleeName(mk.Common()) == load.IgePkg+".MessageKey" && len(mk.Call.Args) == 1 {
+		// the package's own msg_key function: R03.W window:MessageKey shows it to be SHA1(x)[4:20]
+		call = mk
+	} else {
+		sl, ok := v.(*ssa.Slice)
+		if !ok {
+			return ""
+		}
+		lo, _ := an.ConstInt(sl.Low)
+		hi := int64(20)
+		if sl.High != nil {
+			hi, _ = an.ConstInt(sl.High)
+		}
+		call, ok = sl.X.(*ssa.Call)
+		if !ok || !strings.Contains(an.CalleeName(call.Common()), "Sha1") || len(call.Call.Args) != 1 {
+			return ""
+		}
+		if sl.Low == nil || lo != 4 || hi != 20 {
+			return sprintf("digest window is [%d:%d], MTProto 1.0 msg_key is [4:20]", lo, hi)
+		}
 	}
 	in, ok := call.Call.Args[0].(*ssa.Slice)
 	if !ok {
@@ -539,7 +545,7 @@ func c03Acceptance(c *Ctx) {
 		var key *an.Cond
 		for _, i := range an.Ifs(f) {
 			cd, ok := an.Classify(i)
-			if ok && cd.Kind == "bytes.Equal" && strings.Contains(tr.OriginString(cd.X)+tr.OriginString(cd.Y), "Sha1Byte") {
+			if ok && cd.Kind == "bytes.Equal" && (strings.Contains(tr.OriginString(cd.X)+tr.OriginString(cd.Y), "Sha1Byte") || strings.Contains(tr.OriginString(cd.X)+tr.OriginString(cd.Y), "aes_ige.MessageKey")) {
 				key = cd
 			}
 		}
